@@ -153,8 +153,8 @@ class CreateSubscription(Obligation):
             iid = fld(ip.ctx, newsub, 'Subscription', 'internal_id', 'subscriptions/subscription').t
             if self.has_counter:
                 nid2 = fld(ip.ctx, res['state'].v, 'State', 'next_id', 'subscriptions/subscription_manager').t
-                out.append(Claim('new internal id == next_id + 1, above every id in use (creation order = id order, ids never reused)',
-                                 z3.And(iid == res['next_id'] + 1, nid2 == res['next_id'] + 1, z3.Implies(res['e_used'], res['e_iid'] < iid))))
+                out.append(Claim('new internal id is above every id issued so far (> next_id) and covered by the new next_id (creation order = id order, ids never reused)',
+                                 z3.And(iid > res['next_id'], nid2 >= iid, z3.Implies(res['e_used'], res['e_iid'] < iid))))
             else:
                 out.append(Claim('new internal id is above every id in use (creation order = id order)', z3.Implies(res['e_used'], res['e_iid'] < iid)))
             out.append(Cover('created'))
